@@ -55,6 +55,19 @@ def prepare(state, tier, base_seed):
     state["table"] = data["table"]
 
 
+def _intended_roots(sdl):
+    import re
+    m = re.search(r"^schema[^{]*\{([^}]*)\}", sdl, re.M)
+    if m:
+        roots = dict(re.findall(r"(query|mutation|subscription)\s*:\s*(\w+)",
+                                m.group(1)))
+        return (roots.get("query"), roots.get("mutation"),
+                roots.get("subscription"))
+    names = set(re.findall(r"^type (\w+)", sdl, re.M))
+    return tuple(n if n in names else None
+                 for n in ("Query", "Mutation", "Subscription"))
+
+
 def _classify_diff(got, want):
     gl, wl = got.split("\n"), want.split("\n")
     for a, b in zip(gl, wl):
@@ -160,6 +173,24 @@ def run_machine(draws, state, tier):
                     P, "roundtrip", ("text", "rejected-by-build_schema"),
                     "pool[%d] %r: %r" % (si, opt_kwargs(opt), err)))
                 break
+            if entry.kind == "sdl":
+                # the root types the source text asks for, read off the text
+                # itself: the schema block if there is one, otherwise the
+                # types called exactly Query / Mutation / Subscription
+                want = _intended_roots(entry.sdl)
+                for which, sch in (("built", entry.schema),
+                                   ("rebuilt", rebuilt)):
+                    got = tuple(t.name if t is not None else None for t in (
+                        sch.query_type, sch.mutation_type,
+                        sch.subscription_type))
+                    if got != want:
+                        V.append(Violation(
+                            P, "roundtrip", ("roots", "intended"),
+                            "pool[%d]: the text names the roots %r, the %s "
+                            "schema has %r" % (si, want, which, got)))
+                        break
+                if V:
+                    break
             a = _struct.describe(entry.schema, descriptions=opt[1])
             b = _struct.describe(rebuilt, descriptions=opt[1])
             d = _struct.diff(a, b)
